@@ -201,6 +201,27 @@ def run_case(case, rng):
         compare(sel, got, label)
         return got
 
+    # ---- keys that EQUAL a label but have another type (1.0, numpy.int64(1), True for 1; numpy.str_ for str) -------------
+    def variants(k):
+        out = []
+        if isinstance(k, bool):
+            return out
+        if isinstance(k, int):
+            out += [float(k), np.int64(k)] + ([True] if k == 1 else []) + ([False] if k == 0 else [])
+        elif isinstance(k, float):
+            out += [np.float64(k)]
+        elif isinstance(k, str):
+            out += [np.str_(k)]
+        return out
+    # (only for outer domains without tuple / frozenset labels: a numpy scalar compared with a tuple broadcasts, so that
+    # numpy.int64(0) "equals" the label (0,) - numpy semantics, observed on the unchanged tree, not a subject of C12)
+    plain_outer = not any(isinstance(k_, (tuple, list, set, frozenset)) for k_ in domains[0])
+    for k in (domains[0] if plain_outer else []):
+        for kv in variants(k):
+            case.count("equal_keys_of_another_type")
+            lookup(kv, "equal-key-of-another-type")
+            if nf > 1:
+                lookup((kv,) + tuple(rng.choice(d) for d in domains[1:]), "equal-key-of-another-type(full key)")
     # ---- full keys & nested keys (all of them) ---------------------------------------------------------
     import itertools
     for key in itertools.product(*domains):
